@@ -170,8 +170,10 @@ def vo_deps(target_v):
             continue
         seen.append(f)
         src = strip_comments(open(os.path.join(COQ, f)).read())
-        for m in re.finditer(r"From\s+Verif\s+Require\s+(?:Import|Export)?\s*([^.]*(?:\.[A-Za-z_][\w.]*)*)\.", src):
+        for m in re.finditer(r"(?:From\s+Verif\s+)?Require\s+(?:Import\s+|Export\s+)?((?:\w+(?:\.\w+)*\s+)*\w+(?:\.\w+)*)\.(?=\s|$)", src):
             for mod in m.group(1).split():
+                if mod.startswith("Verif."):
+                    mod = mod[len("Verif."):]
                 todo.append(mod.replace(".", "/") + ".v")
     return seen
 
@@ -336,7 +338,12 @@ def standard_check(ctx, spec):
         if not pc["ok"]:
             cause.append("theorem:%s (assumptions/closure: closed=%d prints=%d axioms=%s forbidden=%s rc=%d)" % (
                 spec["props"], pc["closed"], pc["prints"], pc["axioms"], pc["forbidden"], pc["rc"]))
-        bad = audit_sources(vo_deps(spec["props"]))
+        deps = list(vo_deps(spec["props"]))
+        for t in spec.get("check_vo", []):
+            for d in vo_deps(t[:-3] + ".v"):
+                if d not in deps:
+                    deps.append(d)
+        bad = audit_sources(deps)
         if bad:
             cause.append("theorem:forbidden-constructs " + ", ".join(bad))
     chk = None
